@@ -63,6 +63,26 @@ SHAPES = {
     'with-statement': 'with open("f") as f do print(f)\n',
     'keywords-as-names': ''.join(f'def {k} := 1\n' for k in ['lambda', 'try', 'global', 'yield', 'assert', 'del', 'except', 'finally', 'nonlocal', 'async', 'await', 'elif']),
 }
+# every word that is reserved in Python but not in Mamba, alone, in each binding position (one rejected word must not hide the others)
+for _k in ['lambda', 'try', 'global', 'yield', 'assert', 'del', 'except', 'finally', 'nonlocal', 'async', 'await', 'elif', 'is', 'or', 'and', 'not', 'None', 'exec', 'print', 'case', 'match', 'type', 'soft']:
+    SHAPES[f'keyword:{_k}:variable'] = f'def {_k} := 1\nprint("k")\n'
+    SHAPES[f'keyword:{_k}:parameter'] = f'def kf({_k}: Int) -> Int => {_k} + 1\nprint(kf(1))\n'
+    SHAPES[f'keyword:{_k}:function'] = f'def {_k}(a: Int) -> Int => a\nprint("k")\n'
+    SHAPES[f'keyword:{_k}:field'] = f'class KC(def {_k}: Int)\nprint("k")\n'
+    SHAPES[f'keyword:{_k}:method'] = f'class KC\n    def {_k}(self) -> Int => 1\nprint("k")\n'
+    SHAPES[f'keyword:{_k}:loop-variable'] = f'for {_k} in 0 .. 2 do print("k")\n'
+    SHAPES[f'keyword:{_k}:class'] = f'class {_k}\n    def v: Int := 1\nprint("k")\n'
+# else-if chains in value position with a statement-only branch somewhere in the chain
+_E = 'class E1(msg: Str): Exception(msg)\n'
+for _n, _chain in {'raise-in-nested-then': 'if x > 0 then 1 else if x < 0 then raise E1("neg") else 0', 'raise-in-last-else': 'if x > 0 then 1 else if x < 0 then 2 else raise E1("z")',
+                   'raise-in-first-then': 'if x > 0 then raise E1("p") else if x < 0 then 2 else 0', 'three-levels-raise-in-middle': 'if x > 5 then 1 else if x > 3 then 2 else if x > 1 then raise E1("m") else 0',
+                   'nested-in-then': 'if x > 0 then (if x > 5 then raise E1("b") else 1) else 0', 'all-values': 'if x > 0 then 1 else if x < 0 then 2 else 0'}.items():
+    SHAPES[f'else-if:{_n}:function-value'] = _E + f'def cls(x: Int) -> Int raise [E1] => {_chain}\nprint("e")\n'
+    SHAPES[f'else-if:{_n}:function-tail'] = _E + f'def cls(x: Int) -> Int raise [E1] =>\n    print("pre")\n    {_chain}\nprint("e")\n'
+    SHAPES[f'else-if:{_n}:definition'] = _E + f'def cls(x: Int) -> Int raise [E1] =>\n    def v: Int := {_chain}\n    v\nprint("e")\n'
+    SHAPES[f'else-if:{_n}:reassignment'] = _E + f'def cls(x: Int) -> Int raise [E1] =>\n    def v: Int := 0\n    v := {_chain}\n    v\nprint("e")\n'
+    SHAPES[f'else-if:{_n}:return'] = _E + f'def cls(x: Int) -> Int raise [E1] =>\n    return {_chain}\nprint("e")\n'
+
 
 
 def value_position_shapes():
